@@ -193,7 +193,7 @@ def run(ck):
         resource.setrlimit(resource.RLIMIT_STACK, (resource.RLIM_INFINITY, resource.RLIM_INFINITY))
     except Exception:
         pass
-    ncases = 700 if not ck.thorough else 12000
+    ncases = 600 if not ck.thorough else 12000
     ck.gen()
     built = ck.coq_make(MODEL + PROOFS, clean=ck.thorough)
     ck.obligations = ck.count_statements(STATEMENT_FILES)
